@@ -1,5 +1,6 @@
-"""K6: lockset, atomic sections, lock order - all derived from `with <lock>:` regions (the only locking idiom
-in the repository: 0 `.acquire()` calls, checked on every run)."""
+"""K6: lockset, atomic sections, lock order - derived from `with <lock>:` regions (also through a local alias of the
+lock) and from bare `<lock>.acquire()` ... `<lock>.release()` statement brackets (try/finally included); conditional or
+timed acquisition is refused (ANALYSIS-ERROR)."""
 from __future__ import annotations
 
 import ast
@@ -41,8 +42,14 @@ class LockAnalysis:
                 if isinstance(c.func, ast.Attribute) and c.func.attr in ("acquire", "release"):
                     d = dotted(c.func.value) or ""
                     if "lock" in d.lower():
-                        raise AnalysisError(f"{fi.module.rel}:{c.lineno}: explicit {c.func.attr}() on {d}: the lock analysis only "
-                                            f"understands `with <lock>:` regions")
+                        # bare statements `lock.acquire()` / `lock.release()` are understood as region brackets (flow.py);
+                        # conditional / timed acquisition is not
+                        fl = self.flows.get(fi)
+                        st = fl.stmt_of.get(id(c))
+                        bare = isinstance(st, ast.Expr) and st.value is c and not c.args and not c.keywords
+                        if not bare:
+                            raise AnalysisError(f"{fi.module.rel}:{c.lineno}: {c.func.attr}() on {d} with arguments or inside an "
+                                                f"expression: conditional / timed lock acquisition is not modelled")
 
     def _lock_kinds(self) -> dict:
         out = {}
@@ -67,6 +74,40 @@ class LockAnalysis:
         except AnalysisError:
             return ()
 
+    def entry_locks(self, wiring=None) -> dict:
+        """fi.qual -> {lock: witness} : locks that MAY be held when the function is entered, over every in-src call path
+        (union over call sites of: locks held at the site + locks that may be held on entry of the caller)."""
+        if getattr(self, "_entry", None) is not None:
+            return self._entry
+        sites: dict = {}
+        for g in self.prog.iter_funcs():
+            for c in self.prog.calls_in(g):
+                tg = self._callees(g, c, wiring)
+                if not tg:
+                    continue
+                held = self.held(g, c)
+                for t in tg:
+                    sites.setdefault(t.qual, []).append((g, c, held))
+        entry: dict = {}
+        changed = True
+        rounds = 0
+        while changed and rounds < 50:
+            changed = False
+            rounds += 1
+            for q, lst in sites.items():
+                cur = entry.setdefault(q, {})
+                for g, c, held in lst:
+                    for lk in held:
+                        if lk not in cur:
+                            cur[lk] = f"{g.short()} (line {c.lineno}) calls it while holding {lk}"
+                            changed = True
+                    for lk, w in entry.get(g.qual, {}).items():
+                        if lk not in cur:
+                            cur[lk] = f"via {g.short()} <- {w}"
+                            changed = True
+        self._entry = entry
+        return entry
+
     def enclosing_with(self, fi: FuncInfo, node: ast.AST, lock: str) -> Optional[ast.AST]:
         fl = self.flow(fi)
         cur = node
@@ -74,7 +115,7 @@ class LockAnalysis:
             cur = fl.parent[id(cur)]
             if isinstance(cur, (ast.With, ast.AsyncWith)):
                 for it in cur.items:
-                    if fl.lock_key(it.context_expr) == lock:
+                    if fl._lock_key_through_locals(it.context_expr, fl.before[id(cur)]) == lock:
                         return cur
         return None
 
@@ -134,6 +175,41 @@ class LockAnalysis:
                 locks = self.held(fi, n)
                 wn = self.enclosing_with(fi, n, lock) if lock else None
                 out.append(Access(fi, n, kind, locks, wn, how, n.lineno, stmt))
+            # element stores / mutator calls through a local bound to an element of the field:
+            #   rec = self.f[k]; rec["x"] = v   |   rec = self.f[k]; rec.update(...)
+            if fl is None:
+                continue
+            for n in ast.walk(fi.node):
+                root, how = None, None
+                if isinstance(n, ast.Subscript) and isinstance(n.ctx, (ast.Store, ast.Del)):
+                    root, how = n.value, "item store/del through a local alias of an element"
+                elif isinstance(n, ast.Call) and isinstance(n.func, ast.Attribute) and n.func.attr in MUTATORS:
+                    root, how = n.func.value, f".{n.func.attr}() through a local alias of an element"
+                while isinstance(root, ast.Subscript):
+                    root = root.value
+                if not isinstance(root, ast.Name) or id(n) not in fl.stmt_of:
+                    continue
+                try:
+                    st = fl.state_at(n)
+                except AnalysisError:
+                    continue
+                if root.id not in st.defs:
+                    continue
+                x = fl.expand(root, st)
+                depth = 0
+                while isinstance(x, ast.Subscript) or (isinstance(x, ast.Call) and isinstance(x.func, ast.Attribute) and x.func.attr == "get"):
+                    x = x.value if isinstance(x, ast.Subscript) else x.func.value
+                    depth += 1
+                if depth == 0 or not (isinstance(x, ast.Attribute) and x.attr == field):
+                    continue
+                base = x.value
+                ok = (isinstance(base, ast.Name) and base.id == "self" and fi.cls is not None and fi.cls.qual in family) or \
+                    any(isinstance(t, str) and t in family for t in P.expr_types(fi, base))
+                if not ok:
+                    continue
+                locks = self.held(fi, n)
+                wn = self.enclosing_with(fi, n, lock) if lock else None
+                out.append(Access(fi, n, "write", locks, wn, how, n.lineno, fl.stmt_of.get(id(n))))
         return out
 
     # ------------------------------------------------------------------ acquires summary and order graph
@@ -143,7 +219,7 @@ class LockAnalysis:
         for n in ast.walk(fi.node):
             if isinstance(n, (ast.With, ast.AsyncWith)) and id(n) in fl.before:
                 for it in n.items:
-                    k = fl.lock_key(it.context_expr)
+                    k = fl._lock_key_through_locals(it.context_expr, fl.before[id(n)])
                     if k is not None:
                         out.append((k, n))
         return out
